@@ -245,4 +245,33 @@ def gaussM (maxOrder : Nat → Option Nat) (rule : Nat → Nat → Except Err Ru
     | some k => rule dim k
     | none => .error .notImpl
 
+/-! ### the consumer: which reference-cell rule `transport_density` integrates with -/
+
+/-- `L1Mode` of `darsia.measure.wasserstein` -/
+inductive L1Mode | raviartThomas | constantSubcell | constantCell
+  deriving DecidableEq, Repr
+def L1Mode.all : List L1Mode := [.raviartThomas, .constantSubcell, .constantCell]
+
+/-- the call a branch of `transport_density` makes: `gauss_reference_cell(dim, order)` or
+`reference_cell_corners(dim)` (extracted from the source into `DarsiaGen.QuadratureTables.l1Source`) -/
+inductive RuleSource | cell (o : Order) | corners
+  deriving DecidableEq, Repr
+
+/-- the rule (on the unit cell) `transport_density` sums over for an L1 mode in dimension `dim` -/
+def l1Rule (maxOrder : Nat → Option Nat) (rule : Nat → Nat → Except Err Rule) (corners : Nat → Except Err Rule)
+    (src : L1Mode → Except Err RuleSource) (mode : L1Mode) (dim : Nat) : Except Err Rule :=
+  match src mode with
+  | .ok (.cell o) => (gaussM maxOrder rule dim o).map Rule.toUnitCell
+  | .ok .corners => corners dim
+  | .error e => .error e
+
+/-- every L1 mode resolves, in every dimension that has Gauss tables, to a proved rule -/
+def checkL1 (accepted : List (Nat × Nat)) (cornerDims : List Nat) (src : L1Mode → Except Err RuleSource) : Bool :=
+  L1Mode.all.all fun mode => accepted.all fun p =>
+    match src mode with
+    | .ok (.cell (.n k)) => decide ((p.1, k) ∈ accepted)
+    | .ok (.cell .max) => true
+    | .ok .corners => decide (p.1 ∈ cornerDims)
+    | .error _ => false
+
 end Darsia.Quad
